@@ -8,6 +8,11 @@ HOOKS = {
     "add_only": True,
 }
 ENGINES = [
+    {"name": "spawn", "path": "/verif/harness/src/spawn.rs + src/trace.rs + /verif/checks/spawn.py + /verif/lean/Model/{Spawn,Path}.lean",
+     "serves_properties": ["C05", "C06", "C07", "C08", "C15", "C17", "C18"],
+     "kind_free_text": "real Popen::create on the real kernel in trace mode: libc entry points interposed, calls of parent and forked "
+                       "child logged via shared memory without allocating, k-th call of a kind made to fail, exec intercepted with a "
+                       "snapshot of the child's table/signals/ids/allocations; the Lean model replays the same answers"},
     {"name": "comm", "path": "/verif/harness/src/comm.rs + src/interpose.rs + /verif/checks/comm.py + /verif/lean/Model/Comm.lean",
      "serves_properties": ["C01", "C02", "C03", "C04"],
      "kind_free_text": "real Communicator against virtual pipes / scripted child / virtual clock (poll, read, write, close, "
@@ -135,5 +140,73 @@ CLAIMED["C04"] = {
             "c04_resumable. Two genuine defects of the original code (F4 flood never times out, F10 spurious TimedOut through bare "
             "POLLERR) were found by this check and repaired by fix: commits; their reverts are caught with concrete replays.",
     "note": COMM_NOTE + " Real-clock accuracy of the real kernel is outside; Instant + Duration overflow (~2^63 s) not covered.",
+}
+SPAWN_NOTE = COMMON_NOTE + ("OS axioms A4 (fork copies the table, exec closes close-on-exec descriptors and keeps mask/dispositions, dup2, "
+              "close), A7 (std/Rc drop facts), A8 (credentials). Trace-mode interposer on the real kernel; exec is intercepted (a "
+              "startable program is simulated by exit(0)). WF: parent has 0,1,2 open, caller files >= 3. The model is uniform in "
+              "descriptor numbers (it only compares them with 0/1/2 and passes them back).")
+CLAIMED["C05"] = {
+    "engine": "spawn", "design_ref": "DESIGN.md section 6, C05",
+    "technique": "Lean 4 proof (dup2/close sequence over an arbitrary descriptor table; stage invariant) + trace conformance on all 125 triples",
+    "text": "c05_wiring (for every table at the fork and every well-formed triple of child ends, after the child's dup2/close sequence "
+            "0/1/2 are exactly the designated objects; merge = same object as the other output), c05_ends_wf (setup_streams' ends are "
+            "well-formed for every valid combination), c05_invalid_refused (Merge for stdin / both outputs: never forks), "
+            "c05_parent_std_untouched. All 125 triples (+ shared/distinct RcFile, short-lived threads, re-pointed parent streams) are run "
+            "on the real code: identity of the child's 0/1/2 at exec (fstat) against the supplied objects, Some/None of the fields.",
+    "note": SPAWN_NOTE,
+}
+CLAIMED["C06"] = {
+    "engine": "spawn", "design_ref": "DESIGN.md section 6, C06",
+    "technique": "Lean 4 proof (list induction for format_env; call-order and credential model) + trace conformance of argv/envp/exec path",
+    "text": "c06_formatEnv_spec / c06_formatEnv_complete (one entry per name, later wins, order kept -- any list), c06_child_order "
+            "(chdir, wiring, signal reset, setgid BEFORE setuid, setpgid, then exec), c06_ids (A8: both ids obtained; old order "
+            "counterexample), c06_nul_rejected (no fork, everything closed). The argv/envp handed to the intercepted execve are compared "
+            "byte for byte with the request and with Path.renderEnv; cwd/uid/gid/pgid read back in the child at exec.",
+    "note": SPAWN_NOTE + " Names that are empty or contain '=' are outside the quantifier.",
+}
+CLAIMED["C07"] = {
+    "engine": "spawn", "design_ref": "DESIGN.md section 6, C07",
+    "technique": "Lean 4 proof (invariant over the pre-fork steps for every answer list) + fault enumeration on the real code",
+    "text": "c07_no_fd_left_before_fork (any pipe/fcntl/fork failing, invalid config, NUL: exactly the owned descriptors -- every pipe() "
+            "answer and every file handed in -- are closed, no wait), c07_ok_iff_status_empty, c07_child_reports_iff_failed, "
+            "c07_failed_child_is_reaped (also when detached), c07_errno_roundtrip. On the real code every occurrence of every fallible "
+            "step in parent and child is made to fail in turn (thorough: all valid triples x detached, 3144 plans) and the model must emit "
+            "the same calls; oracles: error = injected errno, parent table unchanged, no child left (wait4(-1)).",
+    "note": SPAWN_NOTE + " A failing read of the status channel itself and pthread_sigmask failing are outside the property's fault list "
+            "(observations in DESIGN.md).",
+}
+CLAIMED["C08"] = {
+    "engine": "spawn", "design_ref": "DESIGN.md section 6, C08",
+    "technique": "Lean 4 proof (close-on-exec marking invariant) + trace conformance with the child's full descriptor table at exec",
+    "text": "c08_parent_ends_cloexec (at the fork the parent end of every stream pipe has had FD_CLOEXEC set successfully), status_marked, "
+            "c08_parent_releases_child_ends, c08_child_closes_status_read; single spawning thread. On the real code the child's whole "
+            "descriptor table at exec must contain nothing but 0,1,2 without close-on-exec, with 0 or 3 other live Popens.",
+    "note": SPAWN_NOTE + " PARTIAL: spawns from several threads at once (pipe ends are inheritable between pipe() and fcntl(): defect F9b) "
+            "and the pipeline capture pipe (F9a) are not covered by this check yet.",
+}
+CLAIMED["C15"] = {
+    "engine": "spawn", "design_ref": "DESIGN.md section 6, C15",
+    "technique": "Lean 4 proof (list induction over PATH and candidates) + trace conformance of the exec attempts",
+    "text": "splitPath_spec, c15_candidates_in_path_order, c15_first_startable (iff: earlier candidates tried in order and failed, nothing "
+            "after), c15_slash_no_search, c15_none_startable (last errno, or ENOENT when PATH has only empty entries) for every byte "
+            "string and every file-system answer. The paths seen by the intercepted execve/execv are compared with Path.candidates.",
+    "note": SPAWN_NOTE,
+}
+CLAIMED["C17"] = {
+    "engine": "spawn", "design_ref": "DESIGN.md section 6, C17",
+    "technique": "Lean 4 proof (capacity arithmetic) + counting global allocator armed in the forked child",
+    "text": "c17_prealloc_suffices: for every command and PATH value every path assemble_exe builds fits the capacity reserved before "
+            "the fork. The complete claim (no allocation event between fork and exec/_exit, success and failure) is measured on the real "
+            "code by a counting #[global_allocator] armed in the fork's child branch over name lengths, PATH shapes (longest last), "
+            "cwd lengths 10..3000, large argv/env, failing steps.",
+    "note": SPAWN_NOTE + " What std/libc do internally is observed by the allocator hook, not proved.",
+}
+CLAIMED["C18"] = {
+    "engine": "spawn", "design_ref": "DESIGN.md section 6, C18",
+    "technique": "Lean 4 proof (fold of the child's call sequence over a signal state) + trace conformance with mask/disposition read at exec",
+    "text": "c18_clean (for every configuration and every initial mask/disposition, after the pre-exec steps the mask is empty and SIGPIPE "
+            "default), c18_exec_only_after_reset. On the real code the child's mask and SIGPIPE disposition are read inside the "
+            "intercepted exec for masks none/SIGPIPE/SIGTERM/SIGCHLD/all/real-time/random x parent SIGPIPE ignored/default.",
+    "note": SPAWN_NOTE,
 }
 NOT_CLAIMED = {}
